@@ -40,11 +40,12 @@ fn below(u: &mut Unstructured, n: usize) -> usize {
 
 pub fn tid(u: &mut Unstructured) -> Tid {
     // the two unbounded types get extra weight
-    let x = below(u, 22);
+    let x = below(u, 23);
     match x {
         0..=15 => x as Tid,
         16..=18 => TID_D,
-        _ => TID_A,
+        19..=21 => TID_A,
+        _ => 18,
     }
 }
 
